@@ -60,7 +60,9 @@ let cmd_frombuf (arg : string) (impl : string) : string * string =
   let buf = bytes_of_hex arg in
   let mr = decode_result_str (from_buf buf) in
   let verdict =
-    if impl = "" then "-" else
+    if impl = "" then "-"
+    else if String.length impl >= 19 && String.sub impl 0 19 = "ALIGNMENT-DEPENDENT" then "FAIL:C04:decoding-depends-on-where-the-buffer-lies-in-memory"
+    else
       match decode_result_of_str impl with
       | None -> "FAIL:typed-install-message-produced"
       | Some r -> if c04_ok buf r then "ok" else "FAIL:c04_ok"
